@@ -371,7 +371,7 @@ WHITELIST: dict[str, dict[str, str]] = {
     },
     "sevm.SEVM.create": {"new_addr != %each($ex.code)": "documented assumption: a new address is fresh"},
     "cheatcodes.create_calldata_generic": {
-        "BitVec('<fstr>', 4 * 8) != con(int(BuildOut().get_by_name($contract_name, $filename)['methodIdentifiers'][%each(BuildOut().get_by_name($contract_name, $filename)['methodIdentifiers'])], 16), 32)": "fallback selector differs from every declared selector (definition of fallback)",
+        "BitVec('<fstr>', 4 * 8) != con(int(%each[1](BuildOut().get_by_name($contract_name, $filename)['methodIdentifiers'].items()), 16), 32)": "fallback selector differs from every declared selector (definition of fallback)",
     },
     "cheatcodes.create_uint256_min_max": {
         "UGE(create_generic($ex, 256, $name, 'uint256'), min_value)": "range requested by the cheatcode",
